@@ -322,6 +322,20 @@ ADDENDA10 = {
     "C20": ("; must-pass-through of the emulator entry point on the emulation-requested exit", " Also decides that under ORC_CODE=emulate the entry point is the emulator (which calls the application's emulateN), not a backup function."),
 }
 
+# Additions after the twelfth (partial) seeding round
+ADDENDA11 = {
+    "C03": ("; width rule for position locals of the resampling loads", " Also decides that the 16.16 position of ldreslinX is kept in a 64-bit local, in generated C and in the emulator's template."),
+    "C05": ("; growth-covers-need rule for demand-grown buffers (shared with C14)", " Also decides that a buffer grown for a record is grown by at least that record."),
+    "C08": ("; no-touch-after-release rule for code chunks", " Also decides that a thread does not touch a chunk's memory after returning the chunk to the shared pool."),
+    "C09": ("; no-touch-after-release rule for code chunks (shared with C08); every release of a code object judged for what it owns", " Also decides that released code memory is not written by its former owner."),
+    "C10": ("; must-pass-through of emms inside the MMX target's hook", " Also decides that the MMX target's clear_emms hook emits emms on every path, in 64-bit code too."),
+    "C12": ("; operand-order rule for the register encoded in imm8[7:4]", " Also decides that a four-operand VEX instruction is listed with its is4 operand first, as AT&T syntax has it."),
+    "C13": ("; statelessness of the opcode-set lookup both codec directions use", " Also decides that orc_opcode_set_get walks the current array at every call."),
+    "C14": ("; growth-covers-need rule for the error log; store-before-read rule for out-parameters", " Also decides that one long error record cannot be written past the log buffer."),
+    "C16": ("; every release of the code object judged for what it owns", " Also decides that no early `free (code)` skips the release of insns / vars."),
+    "C20": ("; identity rule for the emulator's lane scaling of staged scalars; every compile request compiles (shared with C19)", " Also decides that an application opcode's scalar reaches its emulateN unaltered, and that compiling an already compiled program compiles it again (a rule set registered in between takes effect)."),
+}
+
 
 def main():
     props = [json.loads(l) for l in open(os.path.join(VERIF, "properties.jsonl"))]
@@ -360,6 +374,9 @@ def main():
                 tech, text = tech + a[0], text + a[1]
             if pid in ADDENDA10:
                 a = ADDENDA10[pid]
+                tech, text = tech + a[0], text + a[1]
+            if pid in ADDENDA11:
+                a = ADDENDA11[pid]
                 tech, text = tech + a[0], text + a[1]
             checks.append({
                 "property_id": pid,
